@@ -407,8 +407,8 @@ MHD_pool_allocate (struct MemoryPool *pool,
   mhd_assert (pool->size >= pool->end - pool->pos);
   mhd_assert (pool->pos == ROUND_TO_ALIGN (pool->pos));
   asize = ROUND_TO_ALIGN_PLUS_RED_ZONE (size);
-  if ( (0 == asize) && (0 != size) )
-    return NULL; /* size too close to SIZE_MAX */
+  if (asize < size)
+    return NULL; /* size too close to SIZE_MAX, value wrap */
   if (asize > pool->end - pool->pos)
     return NULL;
   if (from_end)
@@ -489,8 +489,8 @@ MHD_pool_try_alloc (struct MemoryPool *pool,
   mhd_assert (pool->size >= pool->end - pool->pos);
   mhd_assert (pool->pos == ROUND_TO_ALIGN (pool->pos));
   asize = ROUND_TO_ALIGN_PLUS_RED_ZONE (size);
-  if ( (0 == asize) && (0 != size) )
-  { /* size is too close to SIZE_MAX, very unlikely */
+  if (asize < size)
+  { /* size is too close to SIZE_MAX (value wrap), very unlikely */
     *required_bytes = SIZE_MAX;
     return NULL;
   }
@@ -589,8 +589,7 @@ MHD_pool_reallocate (struct MemoryPool *pool,
   }
   /* Need to allocate new block */
   asize = ROUND_TO_ALIGN_PLUS_RED_ZONE (new_size);
-  if ( ( (0 == asize) &&
-         (0 != new_size) ) || /* Value wrap, too large new_size. */
+  if ( (asize < new_size) || /* Value wrap, too large new_size. */
        (asize > pool->end - pool->pos) ) /* Not enough space */
     return NULL;
 
